@@ -648,7 +648,7 @@ func copyStateless(p *Program, r *Report, rule, what string, exclude ...string) 
 	r2 := newReport(r.Property, r.Tier, r.Seed)
 	checkEffects(p, r2)
 	for k, o := range r2.Obl {
-		if o.Rule != "E1" && o.Rule != "E3" {
+		if o.Rule != "E1" && o.Rule != "E3" && o.Rule != "E5" {
 			continue
 		}
 		skip := false
@@ -660,7 +660,7 @@ func copyStateless(p *Program, r *Report, rule, what string, exclude ...string) 
 		if skip {
 			continue
 		}
-		key := strings.TrimPrefix(strings.TrimPrefix(k, "E1 / "), "E3 / ")
+		key := strings.TrimPrefix(strings.TrimPrefix(strings.TrimPrefix(k, "E1 / "), "E3 / "), "E5 / ")
 		if v, bad := r2.Viol[k]; bad {
 			r.violate(rule, key, v.Where, what+": "+v.Message, nil)
 		} else {
